@@ -513,8 +513,19 @@ def hstartaccess (w : World) (h fi tag ref : Nat) (wr app : Bool) : World × Res
         let a : Acc := { file := fi, slot := i, appendable := app, newElem := d.ext.isNone, canWrite := wr }
         ((w.setFile fi { f with attach := f.attach + 1 }).setAcc h a, .ok)
 
-/-- `Hsetlength` -/
-def hsetlength (w : World) (h : Nat) (len : Nat) : World × Res :=
+/-- `HIrefresh_new` (7f7ac10): "new" is a property of the element's DD, not of one access record: another access
+    record on the same element may have given it a length since this one was opened (special records are not looked at) -/
+def Acc.refresh (a : Acc) (f : File) : Acc :=
+  if a.newElem = true ∧ a.special = false ∧ (f.dd a.slot).ext ≠ none then { a with newElem := false } else a
+
+/-- the access record behind `h` after `HIrefresh_new` (first thing `Hsetlength`, `Hread`, `Hwrite` do with a valid id) -/
+def World.refresh (w : World) (h : Nat) : World :=
+  match w.acc h with
+  | none => w
+  | some a => if a.refresh (w.file a.file) = a then w else w.setAcc h (a.refresh (w.file a.file))
+
+/-- `Hsetlength` after `HIrefresh_new` -/
+def hsetlengthCore (w : World) (h : Nat) (len : Nat) : World × Res :=
   match w.acc h with
   | none => (w, .fail)
   | some a =>
@@ -524,6 +535,9 @@ def hsetlength (w : World) (h : Nat) (len : Nat) : World × Res :=
       let f := w.file a.file
       let (f, _) := f.setLength a.slot len
       ((w.setFile a.file f).setAcc h { a with newElem := false }, .ok)
+
+/-- `Hsetlength` -/
+def hsetlength (w : World) (h : Nat) (len : Nat) : World × Res := hsetlengthCore (w.refresh h) h len
 
 /-- `Hstartwrite(tag, ref, len)` -/
 def hstartwrite (w : World) (h fi tag ref len : Nat) : World × Res :=
@@ -568,10 +582,9 @@ def hlconvert (w : World) (h blen nblk : Nat) : World × Res :=
     -- an element without data gets `Hsetlength(aid, 0)` first, which needs write access on `aid`
     else if (f.dd a.slot).ext.isNone && !a.canWrite then (w, .fail)
     else
-      -- `new_elem` is cleared only by the `Hsetlength(aid, 0)` HLconvert issues for an element without data
-      let ne := a.newElem && (f.dd a.slot).ext.isSome
       let (f, s) := f.convert a.slot blen nblk
-      ((w.setFile a.file f).setAcc h { a with slot := s, special := true, appendable := false, newElem := ne }, .ok)
+      -- "the element has a length now, whoever gave it": `new_elem = FALSE` (dc05857)
+      ((w.setFile a.file f).setAcc h { a with slot := s, special := true, appendable := false, newElem := false }, .ok)
 
 /-- `HLsetblockinfo` -/
 def hsetblockinfo (w : World) (h : Nat) (blen nblk : Int) : World × Res :=
@@ -619,8 +632,7 @@ def hseek (w : World) (h : Nat) (offset : Int) (origin : Nat) : World × Res :=
           else
             ((w.setFile a.file (f.convert a.slot a.blockSize a.numBlocks).1).setAcc h
               { a with slot := (f.convert a.slot a.blockSize a.numBlocks).2, special := true, appendable := false,
-                       -- `new_elem` is cleared only by the `Hsetlength(aid, 0)` HLconvert issues for an element without data
-                       newElem := a.newElem && d.ext.isSome, posn := off.toNat }, .ok)
+                       newElem := false, posn := off.toNat }, .ok)
         else (w.setAcc h { a with posn := off.toNat }, .ok)
 
 /-- `Htell` -/
@@ -641,8 +653,8 @@ def hinquire (w : World) (h : Nat) : World × Res :=
       | some li => (w, .info li.length 0 a.posn SPECIAL_LINKED)
     else (w, .info (ddLen (f.dd a.slot)) (ddOff (f.dd a.slot)) a.posn 0)
 
-/-- `Hread` (with `HLPread`) -/
-def hread (w : World) (h : Nat) (length : Int) : World × Res :=
+/-- `Hread` (with `HLPread`) after `HIrefresh_new` -/
+def hreadCore (w : World) (h : Nat) (length : Int) : World × Res :=
   match w.acc h with
   | none => (w, .fail)
   | some a =>
@@ -665,6 +677,9 @@ def hread (w : World) (h : Nat) (length : Int) : World × Res :=
         else match diskRead f.disk ((ddOff d).toNat + a.posn) len.toNat with
           | none => (w, .fail)
           | some bs => (w.setAcc h { a with posn := a.posn + len.toNat }, .data len bs)
+
+/-- `Hread` -/
+def hread (w : World) (h : Nat) (length : Int) : World × Res := hreadCore (w.refresh h) h length
 
 /-- `Hwrite` on a linked-block element (`HLPwrite`): `a` is the access record, `f` its file -/
 def hwriteLinked (w : World) (h : Nat) (a : Acc) (f : File) (bs : Bytes) : World × Res :=
@@ -700,8 +715,8 @@ def hwritePlain (w : World) (h : Nat) (a : Acc) (f : File) (bs : Bytes) : World 
     let f := { f with endOff := max f.endOff (off + bs.length) }
     ((w.setFile a.file f).setAcc h { a with posn := a.posn + bs.length }, .num len)
 
-/-- `Hwrite` (with `HLPwrite`) -/
-def hwrite (w : World) (h : Nat) (bs : Bytes) : World × Res :=
+/-- `Hwrite` (with `HLPwrite`) after `HIrefresh_new` -/
+def hwriteCore (w : World) (h : Nat) (bs : Bytes) : World × Res :=
   match w.acc h with
   | none => (w, .fail)
   | some a =>
@@ -711,6 +726,12 @@ def hwrite (w : World) (h : Nat) (bs : Bytes) : World × Res :=
       -- "check for a "new" element and make it appendable if so": Hsetlength(aid, length)
       hwritePlain w h { a with newElem := false, appendable := true } ((w.file a.file).setLength a.slot bs.length).1 bs
     else hwritePlain w h a (w.file a.file) bs
+
+/-- `Hwrite`: the argument check (valid id with write access) comes before `HIrefresh_new` -/
+def hwrite (w : World) (h : Nat) (bs : Bytes) : World × Res :=
+  match w.acc h with
+  | none => (w, .fail)
+  | some a => if a.canWrite = false then (w, .fail) else hwriteCore (w.refresh h) h bs
 
 /-- `Htrunc` (contiguous elements only) -/
 def htrunc (w : World) (h : Nat) (n : Nat) : World × Res :=
